@@ -123,7 +123,10 @@ Judge(s, e) ==
     [] e.kind = "stream" ->
          LET fits == { P \in Picks(e) : LET n == ApplySeq(s, OpsOf(e, P))
                                         IN SameOn(e, n) /\ Covered(e, s, n) /\ CountOk(e, n) }
-             all  == e.applied + e.failed = Total(e.groups)
+             \* every item is counted as applied or failed - or the server reports at least one failure and stopped
+             \* reading (a decode / transport error poisons the rest of a client stream; the call still answers with counts)
+             all  == \/ e.applied + e.failed = Total(e.groups)
+                     \/ (e.failed >= 1 /\ e.applied + e.failed < Total(e.groups))
          IN [why |-> base \cup (IF all THEN {} ELSE {"items without an answer"})
                           \cup (IF fits # {} THEN {}
                                 ELSE IF same THEN {"applied count not explained by the valid items"}
